@@ -213,3 +213,11 @@ chk("C23", MC,
     "the solver decides the bitmap obligations.",
     PY_NOTE + " Histories in which a last participant's teardown overlaps another's start are a known finding and excluded.",
     "exhaustive bounded schedule exploration of the real code over file-system/kernel models, symbolic data decided by z3", "B:8/C23")
+
+chk("C19", TV,
+    "seeded random terminal layouts (FMMU/direct, PDO maps with bits and all integer formats, ProcessDesc/PacketDesc links): "
+    "fast path = emitted bytes of the device program in a real FastSyncGroup executed symbolically over a symbolic frame and map; "
+    "slow path = real PacketVar.get/set executed symbolically on a symbolic bytearray; both compared with one reference whose "
+    "positions are parsed from the assembled frame's datagram table and the FMMU logical addresses; frame condition with a "
+    "symbolic byte index",
+    BASE_NOTE, "symbolic execution of the emitted eBPF bytes (z3 bit-vectors) and of the Python source against a common reference", "A:8/C19")
